@@ -572,10 +572,13 @@ class _Relatable(_LexiconElement):
         *args: str,
         end: Optional[T] = None
     ) -> Iterator[list[T]]:
+        # compare by set membership (as for visited nodes below) and not
+        # by _id, which all inferred synsets have in common
+        start = {self}
         agenda: list[tuple[list[T], set[T]]] = [
             ([target], {self, target})
             for target in self.get_related(*args)
-            if target._id != self._id  # avoid self loops?
+            if target not in start  # avoid self loops?
         ]
         while agenda:
             path, visited = agenda.pop()
